@@ -412,14 +412,23 @@ impl AdvancedStringVec {
         // Try aggressive overlap detection (allows overlapping)
         if s_bytes.len() >= self.config.min_overlap_length {
             if let Some(overlap_result) = self.find_overlapping_match(s_bytes) {
-                let (existing_offset, _overlap_len) = overlap_result;
-                let entry = BitPackedEntry::new(existing_offset, s_bytes.len())?;
-                let index = self.entries.len();
-                self.entries.push(entry);
-                
-                self.overlap_table.add_string(index, s_bytes);
-                self.update_stats();
-                return Ok(index);
+                // `present` leading bytes of the new string already sit in the arena at
+                // `existing_offset`.  A partial overlap can only be completed in place
+                // when those bytes are the very end of the arena: the missing tail is
+                // appended right behind them.  Otherwise the string is stored normally.
+                let (existing_offset, present) = overlap_result;
+                if present == s_bytes.len() || existing_offset + present == self.arena.len() {
+                    if present < s_bytes.len() {
+                        self.arena.extend_from_slice(&s_bytes[present..]);
+                    }
+                    let entry = BitPackedEntry::new(existing_offset, s_bytes.len())?;
+                    let index = self.entries.len();
+                    self.entries.push(entry);
+
+                    self.overlap_table.add_string(index, s_bytes);
+                    self.update_stats();
+                    return Ok(index);
+                }
             }
         }
 
@@ -615,8 +624,9 @@ impl AdvancedStringVec {
         // Check for prefix overlap (existing string ends with prefix of new string)
         for overlap_len in (min_overlap..existing.len().min(new.len())).rev() {
             if existing[existing.len() - overlap_len..] == new[..overlap_len] {
-                // Found overlap - new string can extend from existing
-                return Some((existing.len() - overlap_len, new.len()));
+                // Found overlap - new string can extend from existing; only the first
+                // `overlap_len` bytes of it are present so far
+                return Some((existing.len() - overlap_len, overlap_len));
             }
         }
 
